@@ -57,8 +57,8 @@ pub fn gen(rng: &mut Rng, tier: Tier, idx: u64) -> Case {
     let (ws, wt) = gen_write_script(rng, len, wp, 0);
     c.write_script = ws;
     c.write_tail = wt;
-    c.writer_style = rng.below(2) as u8;
-    c.n = vec![rng.below(11) as i64];
+    c.writer_style = gen_writer_style(rng);
+    c.n = vec![rng.below(KINDS.len() as u64) as i64];
     c
 }
 
